@@ -208,6 +208,24 @@ def run(E: Engine, rep: Report, tier: str) -> dict:
                     hit = hit or is_(x, "len(Q_c) == 1")
                 ok = ok and hit is not None and unobj(hit["Q_c"])[0] == "comp" and mentions(unobj(hit["Q_c"])[2], "last_phase")
         rep.check(ok, "GUARD", f"{f.short}|single-phase-reference", "targets with different phase references are rejected", f"{f.short} no longer rejects targets with different phase references before scheduling", E.where(f))
+    # ... "the same reference" means equal MODULO 2pi up to float rounding: references are stored as (prev + phi) % 2pi, so
+    # equal sums reached through different histories differ by an ulp or sit on the two sides of the wrap (2pi - 1e-16 vs
+    # 0.0).  Counting the distinct raw floats of a set comprehension treats those as different references.
+    raw_sets = []
+    for f in (add, tg, E.method(SEQ, "estimate_added_delay")):
+        for l in S(E, f).log:
+            for x in sym.conj_of(l.cond):
+                m_ = is_(x, "len(Q_c) == 1") or is_(x, "len(Q_c) != 1")
+                if m_ is not None and unobj(m_["Q_c"])[0] == "comp" and unobj(m_["Q_c"])[1] == "set" and mentions(unobj(m_["Q_c"])[2], "last_phase"):
+                    raw_sets.append((f, l))
+    seen_f = set()
+    for f, l in raw_sets:
+        if f.short in seen_f:
+            continue
+        seen_f.add(f.short)
+        rep.violation("GUARD", f"{f.short}|phase-references-compared-modulo-2pi", f"{f.short} decides whether the targets share a phase reference by counting the distinct floats in `{{... .last_phase for q in targets}}`: references equal modulo 2pi but reached through different shift histories (0.1 + 0.2 vs 0.3; -0.3 + 2pi) differ in the last bit or across the wrap, and the pulse / retarget is refused", E.where(f, l.node))
+    if not raw_sets:
+        rep.ok("GUARD", "phase-references-compared-modulo-2pi", "no exact-float set comparison of phase references", E.where(add))
     # Pulse.__init__ modulo
     pin = E.fn("pulser.pulse.Pulse.__init__")
     sets = {}
